@@ -336,7 +336,7 @@ def run(ck: core.Check):
         "pair where at least one side compiles; distinct = distinct sugared CSV"
     )
     ck.assumptions = ["the desugarer substitutes loop variables with the repo's own template engine (cell level)"]
-    ck.partial_gap = ["the block clause (an edge naming a block leaves from every still-unconnected ordinary exit, never from a hard exit) is decided on the real compiler by the with/without-edge oracle; the NodeGroup machinery is in the Lean compiler model (Rpft/Compile.lean, tied in C01) but the clause is not proved about it",
+    ck.partial_gap = ["the block clause (an edge naming a block leaves from every still-unconnected ordinary exit, never from a hard exit) is decided on the real compiler by the with/without-edge oracle; the NodeGroup machinery is in the Lean compiler model (Rpft/Compile.lean, tied in C01); proved about it at node level (block_edge_exits: exactly the exits leading nowhere are re-targeted, hard exits and connected exits never; block_edge_consumes_loose), the group recursion (which nodes of a block are visited) is not proved",
                       "insert_as_block is compared on the real code (twin workbooks); it is outside the Lean compiler model"]
     drv = core.Driver()
     # known-finding stream (deterministic): F-C03-a
